@@ -8,6 +8,14 @@ from harness import common
 
 
 def main():
+    # a broken implementation may decode garbage counts and try to allocate without bound:
+    # turn that into MemoryError inside this process instead of exhausting the machine
+    import resource
+    lim = int(os.environ.get("VERIF_MEM_GB", "16")) << 30
+    try:
+        resource.setrlimit(resource.RLIMIT_AS, (lim, resource.RLIM_INFINITY))
+    except Exception:
+        pass
     ap = argparse.ArgumentParser()
     ap.add_argument("pid")
     ap.add_argument("--tier", default=os.environ.get("VERIF_TIER", "quick"))
